@@ -660,3 +660,127 @@ func ruleEncodeWritesTheKeyAsItIs(c *eng.Ctx) {
 	}
 	c.Check(ok, "Encode writes the message key as it is", c.P.Pos(fn.Pos()), "e.PutBytes(m.Key)", "Message.Encode does not hand PutBytes the Key field itself (a normalised copy instead): a key that is empty but not nil is stored as `no key` — what is read back differs from what was appended, and compaction, which never drops keyless messages, stops compacting that key")
 }
+
+// ruleRecoveredEpochStartsAtItsFirstMessage (R05.8 / R02.5 extension): recoverLeaderEpochs scans the log backwards; every message of
+// an epoch the cache does not know leaves its offset as that epoch's start, so the oldest one wins. A collection that keeps
+// the first offset it sees per epoch keeps the NEWEST message's offset.
+func ruleRecoveredEpochStartsAtItsFirstMessage(c *eng.Ctx) {
+	fn := c.Fn(cl + "(*commitLog).recoverLeaderEpochs")
+	if fn == nil {
+		return
+	}
+	var eps []ssa.Instruction
+	for _, cs := range eng.CallsIn(fn, cl+"messageSet.LeaderEpoch") {
+		eps = append(eps, cs.(ssa.Instruction))
+	}
+	scans := eng.CallsIn(fn, cl+"reverseSegmentScanner.Scan")
+	if len(eps) == 0 || len(scans) == 0 {
+		c.Unresolved("the reverse scan and the messageSet.LeaderEpoch read of recoverLeaderEpochs")
+		return
+	}
+	off := eng.Call(-1, cl+"messageSet.Offset")
+	records := func(in ssa.Instruction) bool {
+		switch x := in.(type) {
+		case *ssa.Store:
+			return off(eng.Strip(x.Val))
+		case *ssa.MapUpdate:
+			return off(eng.Strip(x.Value))
+		}
+		return false
+	}
+	known := eng.CmpEdges(fn, eng.Call(-1, cl+"messageSet.LeaderEpoch"), eng.Call(-1, cl+"leaderEpochCache.LastLeaderEpoch"), eng.LE)
+	next := func(in ssa.Instruction) bool {
+		for _, s := range scans {
+			if in == s.(ssa.Instruction) {
+				return true
+			}
+		}
+		return false
+	}
+	q := &eng.PathQuery{Fn: fn, FromAfter: eps, Target: next, CutInstr: records, CutEdges: known}
+	w := q.Find()
+	c.Check(w == nil && len(known) > 0, "every message of a recovered epoch moves the epoch's start to its own offset", c.Pos(eps[0]), "the backward scan stores ms.Offset() for each message of an epoch the cache does not know", "recoverLeaderEpochs can go on to the next (older) message without recording this one's offset ("+w.String()+"): the start recorded for a recovered epoch is then the offset of its NEWEST message, the epoch before it seems to reach further than it does, and a follower that asks where that epoch ended keeps messages the leader does not have")
+}
+
+// ruleChangeLeaderPreconditionLooksThePartitionUp (R07.10 extension): the precondition of a proposed leader change runs later,
+// under the Raft proposal lock; it asks whether the new leader is in the in-sync set of the partition object the metadata
+// store holds THEN. A partition object captured when the election started may have been replaced since (pause → resume).
+func ruleChangeLeaderPreconditionLooksThePartitionUp(c *eng.Ctx) {
+	outer := c.Fn("server.(*metadataAPI).checkChangeLeaderPreconditions")
+	if outer == nil {
+		return
+	}
+	n := 0
+	for _, g := range append([]*ssa.Function{outer}, outer.AnonFuncs...) {
+		for _, cs := range eng.CallsIn(g, "server.partition.inISR") {
+			n++
+			recv := eng.Strip(cs.Common().Args[0])
+			c.Check(eng.Call(-1, "server.metadataAPI.GetPartition")(recv), "the leader-change precondition asks the partition the store holds when it runs", c.Pos(cs.(ssa.Instruction)), "m.GetPartition(req.Stream, req.Partition).inISR(req.Leader)", "the precondition of a leader change tests the in-sync set of "+eng.Describe(recv)+" instead of looking the partition up when it runs: after pause → resume the election still holds the replaced object, whose in-sync set no longer changes — a replica that was shrunk out since is accepted as the new leader")
+		}
+	}
+	if n == 0 {
+		c.Unresolved("the inISR test of checkChangeLeaderPreconditions")
+	}
+}
+
+// ruleGroupMemberSubscribesAsGroupMember (R13.2 extension): whether a subscribe request belongs to a consumer group is decided
+// by its consumer field alone. Nothing else in the request (direction, start position) takes a member's subscription out of
+// the one-member-at-a-time bookkeeping.
+func ruleGroupMemberSubscribesAsGroupMember(c *eng.Ctx) {
+	fn := c.Fn("server.(*partition).Subscribe")
+	if fn == nil {
+		return
+	}
+	// the group id the bookkeeping is keyed by is the request's, or "" when the request names no consumer: an empty id that
+	// arrives in the key over any other edge takes a member out of the bookkeeping
+	noConsumer := eng.CmpEdges(fn, eng.LoadNamed("Consumer", nil), eng.NilConst, eng.EQ)
+	noConsumer = append(noConsumer, eng.CmpEdges(fn, eng.Call(-1, "github.com/liftbridge-io/liftbridge-api/v2/go.SubscribeRequest.GetConsumer"), eng.NilConst, eng.EQ)...)
+	onNoConsumer := func(pred, to *ssa.BasicBlock) bool {
+		for _, e := range noConsumer {
+			if e.From == pred && e.To() == to {
+				return true
+			}
+		}
+		if len(pred.Instrs) == 0 {
+			return false
+		}
+		g, _ := eng.GuardedBy(fn, pred.Instrs[len(pred.Instrs)-1], noConsumer)
+		return g
+	}
+	bad := ""
+	seenPhi := map[*ssa.Phi]bool{}
+	var walk func(v ssa.Value, at ssa.Instruction)
+	walk = func(v ssa.Value, at ssa.Instruction) {
+		ph, ok := eng.Strip(v).(*ssa.Phi)
+		if !ok || seenPhi[ph] {
+			return
+		}
+		seenPhi[ph] = true
+		for i, e := range ph.Edges {
+			if k, isC := eng.Strip(e).(*ssa.Const); isC && k.Value != nil && k.Value.String() == `""` {
+				if !onNoConsumer(ph.Block().Preds[i], ph.Block()) {
+					bad = "an empty group id set at " + c.P.InstrPos(ph.Block().Preds[i].Instrs[0])
+				}
+				continue
+			}
+			walk(e, at)
+		}
+	}
+	eng.Instrs(fn, func(in ssa.Instruction) {
+		switch x := in.(type) {
+		case *ssa.MapUpdate:
+			if eng.LoadNamed("consumers", nil)(x.Map) {
+				walk(x.Key, in)
+			}
+		case *ssa.Lookup:
+			if eng.LoadNamed("consumers", nil)(x.X) {
+				walk(x.Index, in)
+			}
+		}
+	})
+	if len(noConsumer) == 0 {
+		c.Unresolved("the test of the request's consumer in partition.Subscribe")
+		return
+	}
+	c.Check(bad == "", "the group a subscription is booked under is the request's, whatever else the request asks for", c.P.Pos(fn.Pos()), "p.consumers is keyed by the request's group id on every path", "partition.Subscribe can key the group bookkeeping by "+bad+" although the request names a consumer: a member whose request carries some other option (a reverse subscription) is not checked against the current member's epoch, does not cancel it and is not registered — two members of one group consume the partition at the same time")
+}
